@@ -12,6 +12,7 @@ let () =
    | "opscheck" -> Opscheck.run st b
    | "flowcheck" -> Flowcheck.run st b
    | "opsmodel" -> Opsmodel.run st b
+   | "neighmodel" -> Neighmodel.run st b
    | _ -> prerr_endline ("unknown command " ^ cmd); exit 2);
   let oc = open_out Sys.argv.(3) in
   Buffer.output_buffer oc b; close_out oc
